@@ -15,6 +15,7 @@ import TensoraVerif.Model.Scoped
 import TensoraVerif.Lemmas.StoreCertGenerate
 import TensoraVerif.Lemmas.LowerableComplete
 import TensoraVerif.Lemmas.DimDeadGenerate
+import TensoraVerif.Lemmas.Pipe1Class
 open TV
 
 namespace Drv
@@ -364,6 +365,19 @@ def handle (cmd : String) (args : List Sexp) : Sexp :=
           Sexp.ofBool (Gen.properSums g), Sexp.ofBool (Gen.noSkip g),
           Sexp.ofBool (Gen.outLeavesOf (Gen.outTensor d fs) g)]
     | _, _ => Sexp.mk "bad-request" [.str "graph-args"]
+  | "CLASS", [a, fs] =>
+    -- which end-to-end theorem covers this problem: `dense1` = hypotheses `Dense1Source` and `Dense1Names` of
+    -- `evaluate_correct_dense1` (Props/C01DensePipeline.lean), decided here
+    match Alg.Wire.assignOf a, Graph.Wire.formatsOf fs with
+    | some a, some fs =>
+      match a.tidx with
+      | [i] =>
+        let src := Pipe1.srcOk i a.tname fs a.rhs && Pipe1.isD fs a.tname
+        let names := Pipe1.fmtsD fs && fs.all (fun f => !f.1.toList.contains '_') && !i.toList.contains '_' &&
+          !(fs.map (·.1)).contains i
+        if src && names then .atom "dense1" else .atom "none"
+      | _ => .atom "none"
+    | _, _ => Sexp.mk "bad-request" [.str "class-args"]
   | "DIMFREE", [a, fs, .str i] =>
     -- C16: the hypotheses of `generateIr_deadDim` (dimFree, namesClear) on the graph the model chooses
     match Alg.Wire.assignOf a, Graph.Wire.formatsOf fs with
